@@ -46,7 +46,9 @@ def operand(draw, shape, nonzero=False):
 
 
 def shape_st(min_rank=0, max_rank=3, max_side=3):
-    return st.lists(st.integers(1, max_side), min_size=min_rank, max_size=max_rank)
+    small = st.lists(st.integers(1, max_side), min_size=min_rank, max_size=max_rank)
+    large = st.lists(st.sampled_from([1, 2, 9, 12, 17]), min_size=max(1, min_rank), max_size=min(2, max_rank))      # occasionally larger dimensions
+    return st.one_of(small, small, small, small, small, small, small, large)
 
 
 EINSUM_FIXED = [  # equations used by the library's own callers, with compatible operand shapes
@@ -114,6 +116,9 @@ def cases(draw):
         m, k, p = draw(st.integers(1, 4)), draw(st.integers(1, 4)), draw(st.integers(1, 4))
         c["a"] = draw(operand([m, k]))
         c["b"] = draw(operand([k, p] if draw(st.booleans()) else [k]))
+        if draw(st.integers(0, 14)) == 0:
+            # a long contraction: the short drawn operands are tiled (with index-dependent signs) to k = 64..320
+            c["tile_k"] = draw(st.sampled_from([64, 129, 256, 300, 320]))
     elif op == "matmul_kron_form":
         rest = draw(st.lists(st.integers(1, 4), min_size=0, max_size=1))
         c["a"] = draw(operand([2, 2]))
@@ -156,6 +161,16 @@ def dec(o):
     return (np.array(o["re"], dtype=np.float64) + 1j * np.array(o["im"], dtype=np.float64)).reshape(o["shape"])
 
 
+def tile_contraction(a, b, K):
+    """deterministic enlargement of a (m,k) x (k[,p]) product to contraction length K"""
+    k = a.shape[-1]
+    reps = -(-K // k)
+    sgn = np.where((np.arange(reps * k) // k) % 3 == 1, -1.0, 1.0)[:K]
+    A = np.tile(a, (1, reps))[:, :K] * sgn[None, :]
+    B = (np.tile(b, (reps,) + (1,) * (b.ndim - 1))[:K] * (sgn[:, None] if b.ndim == 2 else sgn) * (1 + (np.arange(K) % 5))[(slice(None),) + (None,) * (b.ndim - 1)])
+    return A, B
+
+
 def enc(z):
     z = np.asarray(z, dtype=np.complex128)
     return torch.stack([torch.tensor(z.real.copy(), dtype=torch.float64), torch.tensor(z.imag.copy(), dtype=torch.float64)])
@@ -183,6 +198,8 @@ def check(case):
     op = case["op"]
     a = dec(case["a"]) if "a" in case else None
     b = dec(case["b"]) if "b" in case else None
+    if case.get("tile_k"):
+        a, b = tile_contraction(a, b, case["tile_k"])
     ta = enc(a) if a is not None else None
     tb = enc(b) if b is not None else None
     ka = ta.clone() if ta is not None else None
@@ -213,7 +230,17 @@ def check(case):
         require(r is buf, "scalar_mult_out:identity", "scalar_mult(out=) did not return the given buffer")
         cmp(buf, a * b, (mx(a) + 1e-300) * (mx(b) + 1e-300) * 4, "scalar_mult(out=)")
     elif op == "scalar_mult_I":
+        # the imaginary-unit constant is shared by the whole library: other library code that uses it runs first
+        from qucumber.nn_states import ComplexWaveFunction
+        from qucumber.observables import SigmaY
+        tiny = ComplexWaveFunction(3, 2, gpu=False)
+        sm = tiny.generate_hilbert_space()[:4]
+        SigmaY().apply(tiny, sm); SigmaY().apply(tiny, sm)
+        tiny.ph_grads(sm)
+        tiny.gradient(sm, bases=np.array([list("XYZ")] * 4))
+        require(cplx.I.tolist() == [0.0, 1.0], "constant-I-changed", f"library code changed the shared constant cplx.I to {cplx.I.tolist()}")
         cmp(cplx.scalar_mult(ta, cplx.I), a * 1j, mx(a) + 1e-300, "scalar_mult(x, cplx.I)")
+        cmp(cplx.scalar_divide(ta, cplx.I.to(ta)), a / 1j, mx(a) + 1e-300, "scalar_divide(x, cplx.I)", rtol=1e-10)
     elif op in ("matmul", "matmul_kron_form"):
         K = a.shape[-1]
         cmp(cplx.matmul(ta, tb), a @ b, K * 4 * (mx(a) + 1e-300) * (mx(b) + 1e-300), "matmul")
